@@ -126,7 +126,11 @@ def s_history(draw, max_tests=4, with_run=True, with_tags=True, with_time=True, 
             ops.append({"op": "stopTestRun"})
             ops.append({"op": "startTestRun"})
         elif c == "startless_skip":
-            ops.append({"op": "startless_skip", "i": ntests, "reason": draw(REASON), "tk": "case"})
+            between = None
+            if with_tags and draw(st.integers(0, 2)) == 0:       # a tags() call wedged between the addSkip and its stopTest
+                new = draw(TAGSET)
+                between = {"new": sorted(new), "gone": sorted(draw(TAGSET) - new)}
+            ops.append({"op": "startless_skip", "i": ntests, "reason": draw(REASON), "tk": "case", "tags_between": between})
             ntests += 1
         elif c == "placeholder":
             ops.append({"op": "placeholder", "i": ntests, "tags": sorted(draw(TAGSET)),
